@@ -1,14 +1,14 @@
 (* C18 (a) -- constructors of unit twists and their screw accessors (3-D and planar).
    Statements are fixed; the tr_ / pc_ / bt_ definitions are regenerated from /repo on every run (Twist3.Revolute,
    Twist3.Prismatic, pitch, theta, pole, line, isprismatic, Plucker.PointDir / pp, and the Twist2 analogues run on symbols;
-   the normalisation a/|a| of base.unitvec is part of the traces, its branch |a| > 100 eps is the generated path condition). *)
+   the normalisation a/|a| of base.unitvec is part of the traces, its branch |a| > 10 eps is the generated path condition). *)
 From Coq Require Import Reals ZArith Lra Lia Nsatz Psatz Bool.
 From SM Require Import Base.Ops Base.Lin Base.RInst Base.RLin Model.C18_Screw.
 From SMgen Require Import Traces_C18.
 Open Scope R_scope.
 
 Ltac gen_unfold := autounfold with smgen smlin in *; sm_simpl.
-Definition eps100 : R := 25 / 1125899906842624.      (* 100 * 2^-52, unitvec's threshold *)
+Definition unit_thr : R := 5 / 2251799813685248.      (* 10 * 2^-52: unitvec's threshold since fix d900630, the same as iszerovec's (= tiny) *)
 
 (* abstract the norm: n := sqrt(a.a) with n*n = a.a and n > 0 *)
 Ltac abstract_norm3 a0 a1 a2 Hpos :=
@@ -17,22 +17,25 @@ Ltac abstract_norm3 a0 a1 a2 Hpos :=
   revert Hpos Hn; generalize (sqrt (a0*a0 + a1*a1 + a2*a2)); intros n Hpos Hn.
 
 (* ---------------------------------------------------------------- constructors *)
-Lemma C18_pc_Revolute_iff : forall a q, pc_tr_T3_Revolute Rops a q = true <-> eps100 < norm3 Rops a.
-Proof. intros. destruct_tuples. gen_unfold. rewrite andb_true_r, Rltb_true. unfold eps100. tauto. Qed.
+Lemma C18_pc_Revolute_iff : forall a q, pc_tr_T3_Revolute Rops a q = true <-> unit_thr < norm3 Rops a.
+Proof. intros. destruct_tuples. gen_unfold. rewrite andb_true_r, Rltb_true. unfold unit_thr. tauto. Qed.
 Print Assumptions C18_pc_Revolute_iff.
-Lemma C18_pc_Prismatic_iff : forall a, pc_tr_T3_Prismatic Rops a = true <-> eps100 < norm3 Rops a.
-Proof. intros. destruct_tuples. gen_unfold. rewrite andb_true_r, Rltb_true. unfold eps100. tauto. Qed.
+Lemma C18_pc_Prismatic_iff : forall a, pc_tr_T3_Prismatic Rops a = true <-> unit_thr < norm3 Rops a.
+Proof. intros. destruct_tuples. gen_unfold. rewrite andb_true_r, Rltb_true. unfold unit_thr. tauto. Qed.
 Print Assumptions C18_pc_Prismatic_iff.
 
-Lemma eps100_pos : 0 < eps100.  Proof. unfold eps100. lra. Qed.
-Print Assumptions eps100_pos.
+Lemma unit_thr_pos : 0 < unit_thr.  Proof. unfold unit_thr. lra. Qed.
+Print Assumptions unit_thr_pos.
+(* the zero test (iszerovec) and the normalisation test (unitvec) now agree: no vector passes one and fails the other *)
+Lemma C18_unit_thr_is_zero_thr : unit_thr = tiny.  Proof. reflexivity. Qed.
+Print Assumptions C18_unit_thr_is_zero_thr.
 
 (* Revolute(a, q) = (-(w x q), w) with w = a/|a|, a unit vector *)
 Theorem C18_Revolute_form : forall a q, pc_tr_T3_Revolute Rops a q = true ->
   tr_T3_Revolute Rops a q = revolute_tw Rops (unitv3 Rops a) q /\
   dot3 Rops (unitv3 Rops a) (unitv3 Rops a) = 1 /\ vscale3 Rops (norm3 Rops a) (unitv3 Rops a) = a.
 Proof.
-  intros a q H. apply C18_pc_Revolute_iff in H. pose proof eps100_pos.
+  intros a q H. apply C18_pc_Revolute_iff in H. pose proof unit_thr_pos.
   assert (Hp : 0 < norm3 Rops a) by lra. split; [|split; [apply unitv3_unit | apply unitv3_scale]; exact Hp].
   clear H. destruct_tuples. gen_unfold. abstract_norm3 r4 r3 r2 Hp. tuple_eq ltac:(field; lra).
 Qed.
@@ -41,7 +44,7 @@ Print Assumptions C18_Revolute_form.
 Theorem C18_Prismatic_form : forall a, pc_tr_T3_Prismatic Rops a = true ->
   tr_T3_Prismatic Rops a = prismatic_tw Rops (unitv3 Rops a) /\ dot3 Rops (unitv3 Rops a) (unitv3 Rops a) = 1.
 Proof.
-  intros a H. apply C18_pc_Prismatic_iff in H. pose proof eps100_pos.
+  intros a H. apply C18_pc_Prismatic_iff in H. pose proof unit_thr_pos.
   assert (Hp : 0 < norm3 Rops a) by lra. split; [|apply unitv3_unit; exact Hp].
   clear H. destruct_tuples. gen_unfold. abstract_norm3 r1 r0 r Hp. tuple_eq ltac:(try (field; lra); try reflexivity).
 Qed.
@@ -50,7 +53,7 @@ Print Assumptions C18_Prismatic_form.
 Example C18_constructors_nonvacuous :
   pc_tr_T3_Revolute Rops (0, 3, 4) (1, 2, 3) = true /\ pc_tr_T3_Prismatic Rops (0, 3/1000, 4/1000) = true.
 Proof.
-  split; [apply C18_pc_Revolute_iff | apply C18_pc_Prismatic_iff]; unfold eps100; lin_simpl.
+  split; [apply C18_pc_Revolute_iff | apply C18_pc_Prismatic_iff]; unfold unit_thr; lin_simpl.
   - replace (0*0 + 3*3 + 4*4) with (5*5) by ring. rewrite sqrt_square; lra.
   - replace (0*0 + 3/1000*(3/1000) + 4/1000*(4/1000)) with (5/1000*(5/1000)) by field. rewrite sqrt_square; lra.
 Qed.
